@@ -1,5 +1,7 @@
-import SgeProofs.Lemmas.CollateralWager
-open Sge.Core
-#check @col_visit_some
-#print axioms col_visit_some
-#print axioms requeue_col
+import SgeProofs.Properties.C02Reach
+open Sge.Core Sge
+#print axioms c02_collateral_partial
+#print axioms c02_monitor_inequality_partial
+#print axioms c02_current_round_partial
+#print axioms c02_nonneg_parts_monotone
+#print axioms c02_counterexample_undercollateralised
